@@ -368,6 +368,14 @@ func (n *node) RegisterName(name gen.Atom, pid gen.PID) error {
 
 	p.name = name
 
+	// the process may have terminated while the name was being registered:
+	// its clean-up has then not seen the name, which would stay bound to a
+	// dead process for good
+	if _, exist := n.processes.Load(pid); exist == false {
+		n.names.CompareAndDelete(name, p)
+		return gen.ErrProcessTerminated
+	}
+
 	return nil
 }
 
